@@ -6,7 +6,7 @@ rows = collections.OrderedDict()
 logs = sorted(os.listdir('logs'))
 for lg in logs:
     for line in open('logs/' + lg):
-        m = re.match(r'(C\d\d[A-T]) (CAUGHT\(no-input\)|CAUGHT|MISSED|NEUTRALISED)', line)
+        m = re.match(r'(C\d\d[A-V]) (CAUGHT\(no-input\)|CAUGHT|MISSED|NEUTRALISED)', line)
         if not m:
             continue
         f = re.search(r'findings (\d+)', line)
@@ -29,6 +29,9 @@ desc = {
  'all240_seed1_final.log': 'all 240, seed 1, harness as of the start of round 7',
  'all240_seed2_final.log': 'all 240, seed 2, harness as of the start of round 7',
  'round7_first_run_seed0.log': 'round 7 (M, N) FIRST RUN against the harness that had never seen them: 26 of 40',
+ 'round11_first_run_seed0.log': 'round 11 (U, V; twelve properties) FIRST RUN against the harness that had never seen them: 15 of 24',
+ 'all424_seed0.log': 'all 424, seed 0, final harness',
+ 'all424_seed1.log': 'all 424, seed 1 (the seed `vp check` uses), final harness',
  'round10_first_run_seed0.log': 'round 10 (S, T) FIRST RUN against the harness that had never seen them: 31 of 40',
  'all400_seed0.log': 'all 400, seed 0, final harness',
  'all400_seed1.log': 'all 400, seed 1 (the seed `vp check` uses), final harness',
